@@ -249,6 +249,17 @@ def run(m, o):
             else:
                 obs['rtype'] = type(val).__name__
                 res = [m.alloc(v) for v in val]
+        elif rkind == 'matching':
+            ret, twin = val
+            treg = m.alloc(twin)
+            if extra.get('inplace'):
+                if ret is not None:
+                    obs['ret_not_none'] = 1
+                res = [treg]
+            elif m.kind_of(ret) == '?':
+                out = 'badtype'
+            else:
+                res = [m.alloc(ret), treg]
         elif rkind == 'none':
             if val is not None:
                 # in-place mutators of AnsiString return None; anything else is recorded
@@ -357,3 +368,80 @@ def _aset(m, o):
         yp1, yv1, yp2 = y.parsable, y.valid, y.parsable                      # parsable first (the flags are cached)
         return {'valid': [b(xv1), b(xv2), b(yv1)], 'parsable': [b(xp1), b(xp2), b(yp1), b(yp2)]}
     return {'text': cps(text)}, call, 'scalar', {'obs': lambda v: v}
+
+
+# ---- queries (C17) ---------------------------------------------------------------------------------
+@op('ansi_settings_at')
+def _asa(m, o):
+    x = m.regs[o['r']]
+    i = o['i']
+    return {'i': clamp(i)}, (lambda: x.ansi_settings_at(i)), 'scalar', \
+        {'obs': lambda v: {'lst': [[m.inst_id(s), m.texts.tid(str(s))] for s in v], 'str': cps(x.settings_at(i))}}
+
+
+@op('find_settings')
+def _fs(m, o):
+    x = m.regs[o['r']]
+    sets = build_settings(m.lib, o['sets'])
+    st, en, rev = o.get('start', 0), o.get('end'), bool(o.get('reverse'))
+    a = {'S': m.texts.tids(o['S']), 'start': opt(st), 'end': opt(en), 'reverse': b(rev)}
+
+    def obs(v):
+        ok = isinstance(v, tuple) and len(v) == 2
+        return {'shape': b(ok), 'fs': opt(v[0]) if ok else [], 'fe': opt(v[1]) if ok else []}
+    return a, (lambda: x.find_settings(sets, st, en, rev)), 'scalar', {'obs': obs}
+
+
+# ---- format_matching / unformat_matching (C16) -------------------------------------------------------
+def _matching(m, o, un):
+    x = m.regs[o['r']]
+    pat = o['pat']
+    regex, mc, count = bool(o.get('regex')), bool(o.get('match_case')), o.get('count', -1)
+    ip = m.kinds[o['r']] == 'S'
+    if un:
+        if o.get('all'):
+            fmts, sel, allf = ([None] if o.get('explicit_none') else []), [], 1
+        else:
+            fmts, sel, allf = build_settings(m.lib, o['sets']), m.texts.tids(o['S']), 0
+    else:
+        fmts, sel, allf = build_settings(m.lib, o['sets']), m.texts.tids(o['S']), 0
+    # oracle: Python's re on the base text (the property names it)
+    text = x.base_str
+    spans = []
+    try:
+        it = re.finditer(pat if regex else re.escape(pat), text, 0 if mc else re.IGNORECASE)
+        for mt in it:
+            if count >= 0 and len(spans) >= count:
+                break
+            spans.append([mt.start(), mt.end()])
+        pat_ok = 1
+    except re.error:
+        pat_ok = 0
+    # twin: the explicit loop of apply/remove on a copy
+    twin = m.lib.AnsiString(x)
+    for s_, e_ in spans:
+        if un:
+            twin.remove_formatting(None if allf else fmts, s_, e_)
+        else:
+            twin.apply_formatting(fmts, s_, e_)
+    a = {'pat': cps(pat), 'regex': b(regex), 'mc': b(mc), 'count': clamp(count), 'S': sel, 'all': allf,
+         'spans': spans, 'pat_ok': pat_ok, 'un': b(un)}
+    kw = {'regex': regex, 'match_case': mc, 'count': count}
+    fn = x.unformat_matching if un else x.format_matching
+    return a, (lambda: (fn(pat, *fmts, **kw), twin)), 'matching', {'inplace': ip}
+
+
+@op('format_matching')
+def _fm(m, o):
+    return _matching(m, o, False)
+
+
+@op('unformat_matching')
+def _ufm(m, o):
+    return _matching(m, o, True)
+
+
+# ---- twins (C13) -----------------------------------------------------------------------------------
+@op('twincheck')
+def _twin(m, o):
+    return {'a': list(o['a']), 'b': list(o['b'])}, (lambda: None), 'scalar', {'obs': lambda v: {}}
